@@ -6,6 +6,14 @@ VERIF = os.path.dirname(os.path.dirname(os.path.abspath(__file__)))
 
 # id -> (category, technique, text, note)
 CLAIMS = {
+    'C04': ('other',
+            'static analysis: abstract interpretation of the lifter\'s IR templates (E4) in a boolean-function domain (condition codes) and a bit-slice domain (carry/overflow), plus flag write-set and term-identity rules against an architecture table',
+            'Decides the flag/condition discipline of the integer core for every value of the operands: the truth table over cf/zf/sf/of/pf of every jcc/setcc/cmovcc '
+            '(and loop/loope/loopne/jecxz over count,zf) equals the architectural predicate with the right polarity; update_flag_add/sub carry and overflow equal the '
+            'architectural functions of the sign bits (8 combinations, valid for all widths/values because the formula is bitwise) and each call site passes (x, y, x op y); '
+            'per mnemonic the written status flags are exactly defined-or-undefined ones (none kept), and zf/sf/pf are computed from the expression assigned to the destination.',
+            'Not decided (need concrete evaluation): result values, shift/rotate flag formulas per count, mul/div, addressing, direct branch targets, cmps operand order. '
+            'Trusted: ref/ia32_cc.ref, ref/ia32_effects.ref, the E4 form model. Known findings: aaa/aas/daa/das stub, cmpxchg flags.'),
     'C11': ('other',
             'static analysis: partial evaluation of the lifter (dict_to_Expr + semantic function) per decoder form into IR templates, then width/kind/single-assignment typing of each template',
             'For every live decoder variant x operand form x operand size (about 2200 instantiations, 11800 in thorough) the IR template the lifter emits is derived from the '
